@@ -114,3 +114,8 @@ def make_read(name, chrom, blocks, flag=0, mapq=60, indels=None, polya=0, polyt=
     if extra:
         r.update(extra)
     return r
+
+
+def ref_end_of(r):
+    """0-based exclusive reference end of a read record"""
+    return r["p"] + sum(l for o, l in r["cg"] if o in (M, D, N, EQ, X))
